@@ -148,6 +148,7 @@ def run_shard(tier, seed, shard, n, R):
                 os.makedirs(cwd)
                 ok = True
                 for name, fs, imps in sp.libs:
+                    os.makedirs(os.path.dirname(os.path.join(cwd, name + ".nsl")), exist_ok=True)
                     with open(os.path.join(cwd, name + ".nsl"), "w") as f:
                         f.write(sp.layouts[name][0])
                     rc, out = runner.nslc(cwd, name + ".nsl", name + ".nslir")
